@@ -153,7 +153,33 @@ func (cl *c17Cluster) closeServer(k int) error {
 		return nil
 	}
 	cl.closed[k] = true
-	return cl.nodes[k].Close()
+	err := cl.nodes[k].Close()
+	// a server that goes away takes its connections with it: the RPC clients the other nodes have cached for it
+	// are shut down from then on (what a process death leaves behind), they are not merely unanswered
+	for j, nd := range cl.nodes {
+		if j == k || cl.closed[j] {
+			continue
+		}
+		v := reflect.ValueOf(nd).Elem().FieldByName("rpcClients")
+		if !v.IsValid() || v.Kind() != reflect.Map {
+			continue
+		}
+		if m, ok := reflect.NewAt(v.Type(), unsafe.Pointer(v.UnsafeAddr())).Elem().Interface().(map[string]*rpc.Client); ok {
+			if c, ok := m[cl.servers[k]]; ok && c != nil {
+				c.Close()
+				if os.Getenv("VERIF_DEBUG") != "" {
+					fmt.Fprintf(os.Stderr, "closeServer %d: shut the cached client of node %d\n", k, j)
+				}
+			} else if os.Getenv("VERIF_DEBUG") != "" {
+				keys := []string{}
+				for kk := range m {
+					keys = append(keys, kk)
+				}
+				fmt.Fprintf(os.Stderr, "closeServer %d: node %d has no cached client for %s (has %v)\n", k, j, cl.servers[k], keys)
+			}
+		}
+	}
+	return err
 }
 
 func (cl *c17Cluster) anyClosed() bool {
@@ -776,6 +802,19 @@ func c17History(seed uint64, idx int, big bool) (res c17Hist, err error) {
 				}
 				h.ops = append(h.ops, fmt.Sprintf("CClose %d", x))
 				h.note("server closed")
+			}
+			if closeOne && x != entryA {
+				// first through the SAME entry node: its cached RPC client for the closed server is shut down now
+				// (the first request that meets it must still report the shard unavailable)
+				if err := h.searches(1); err != nil {
+					return res, err
+				}
+				if err := h.update(h.genUpdate()); err != nil {
+					return res, err
+				}
+				if err := h.searches(1); err != nil {
+					return res, err
+				}
 			}
 			h.entry = b
 			h.ops = append(h.ops, fmt.Sprintf("CEntry %d", b))
